@@ -71,6 +71,9 @@ impl Ctx {
         rejudge_bytes: &(dyn Fn(&[u8]) -> Option<(Value, CaseResult)> + Sync),
         rejudge_json: &(dyn Fn(&Value) -> Option<CaseResult> + Sync),
     ) {
+        if !self.part_enabled(&format!("{}/libfuzzer", c.part)) {
+            return;
+        }
         let t0 = Instant::now();
         if !build_targets() {
             self.inconclusive(format!("fuzz target build failed for {}", c.target));
